@@ -1,9 +1,100 @@
 import PyamgV.Driver.Util
-/-! Driver ops for property C11 (line protocol). Op names are prefixed `c11_`. -/
+import PyamgV.Model.KNum
+import PyamgV.Model.C11
+import PyamgV.Proofs.C11Kernel
+import Mathlib.Algebra.Order.Ring.Rat
+import Mathlib.Algebra.Field.Rat
+/-! Driver ops for property C11 (line protocol). Op names are prefixed `c11_`.
+`c11_p_*` run the proof-side definitions (the ones the theorems are about) on `Rat`. -/
 namespace PyamgV.Drv.C11
-open PyamgV PyamgV.Drv
+open PyamgV PyamgV.Drv PyamgV.N
+
+def mk (n ap aj ax : String) : N.Csr := ⟨nat n, parseNats ap, parseNats aj, parseRats ax⟩
+def mkPat (n ap aj : String) : N.Csr := ⟨nat n, parseNats ap, parseNats aj, #[]⟩
+
+/-- rows of a CSR matrix as (column, value) lists, in storage order -/
+def rowsOf (A : N.Csr) : Nat → List (Nat × Rat) :=
+  fun i => (A.jjs i).map (fun jj => (rdN A.aj jj, rdQ A.ax jj))
+
+def isCf (split : Array Int) : Nat → Bool := fun j => rdI split j == 1
+
+def showRow (r : List (Nat × Rat)) : String :=
+  if r.isEmpty then "-" else String.intercalate "," (r.map fun cv => s!"{cv.1}:{showRat cv.2}")
+def showRows (rs : List (List (Nat × Rat))) : String :=
+  if rs.isEmpty then "none" else String.intercalate ";" (rs.map showRow)
+
+/-- the wrapper's `eliminate_zeros(); data[:] = 1; C.multiply(A)` for sorted duplicate-free `A`:
+entries of `C` with non-zero value whose `A` entry is non-zero, carrying `A`'s value -/
+def strengthWithA (A C : N.Csr) (cx : Array Rat) : N.Csr :=
+  let o : N.Out := (List.range C.n).foldl (fun (o : N.Out) i =>
+    let o := (C.jjs i).foldl (fun (o : N.Out) jj =>
+      let j := rdN C.aj jj
+      let a := C11M.entry A i j
+      if rdQ cx jj ≠ 0 ∧ a ≠ 0 then { o with sj := o.sj.push j, sx := o.sx.push a } else o) o
+    { o with sp := o.sp.push o.sj.size }) {}
+  ⟨C.n, o.sp, o.sj, o.sx⟩
+
+/-- `C.eliminate_zeros()` -/
+def dropZeros (C : N.Csr) : N.Csr :=
+  let o : N.Out := (List.range C.n).foldl (fun (o : N.Out) i =>
+    let o := (C.jjs i).foldl (fun (o : N.Out) jj =>
+      if rdQ C.ax jj ≠ 0 then { o with sj := o.sj.push (rdN C.aj jj), sx := o.sx.push (rdQ C.ax jj) } else o) o
+    { o with sp := o.sp.push o.sj.size }) {}
+  ⟨C.n, o.sp, o.sj, o.sx⟩
+
+def showP (pp : Array Nat) (pj : Array Int) (px : Array (Option Rat)) : String :=
+  showNats pp ++ ";" ++ showInts pj ++ ";" ++ showORats px
 
 def handle : List String → Option String
+  | ["c11_cls1", n, sp, sj, split] =>
+    some <| showNats (C11M.classicalPass1 (nat n) (mkPat n sp sj) (parseInts split))
+  | ["c11_rmff", n, sp, sj, sx, split] =>
+    some <| showRats (C11M.removeFF (mk n sp sj sx) (parseInts split))
+  | ["c11_cls2", eps, md, n, ap, aj, ax, sp, sj, sx, split, pp] =>
+    let (pj, px) := C11M.classicalPass2 (parseRat eps) (md == "1") (mk n ap aj ax) (mk n sp sj sx)
+      (parseInts split) (parseNats pp)
+    some <| showInts pj ++ ";" ++ showORats px
+  | ["c11_api_classical", eps, md, n, ap, aj, ax, cp, cj, cx, split] =>
+    -- classical_interpolation(A, C, splitting, modified=md) with theta=None:
+    -- C.copy(); eliminate_zeros(); [remove_strong_FF_connections]; eliminate_zeros(); data = 1; multiply(A)
+    let A := mk n ap aj ax
+    let C := dropZeros (mk n cp cj cx)
+    let split := parseInts split
+    let cx' := if md == "1" then C11M.removeFF C split else C.ax
+    let S := strengthWithA A C cx'
+    let pp := C11M.classicalPass1 A.n S split
+    let (pj, px) := C11M.classicalPass2 (parseRat eps) (md == "1") A S split pp
+    some <| showP pp pj px
+  | ["c11_api_direct", n, ap, aj, ax, cp, cj, cx, split] =>
+    let A := mk n ap aj ax
+    let C := mk n cp cj cx
+    let (pp, pj, px) := N.directInterp A (strengthWithA A C C.ax) (parseInts split)
+    some <| showNats pp ++ ";" ++ showNats pj ++ ";" ++ showORats px
+  | ["c11_onept", n, cp, cj, cx, split] =>
+    let (pp, pj, px) := C11M.onePoint (nat n) (mk n cp cj cx) (parseInts split)
+    some <| showNats pp ++ ";" ++ showInts pj ++ ";" ++ showRats px
+  | ["c11_inj", n, split] =>
+    let (rp, cols) := C11M.injection (nat n) (parseInts split)
+    some <| showInts rp ++ ";" ++ showInts cols
+  | ["c11_air1", n, sp, sj, cpts, split, dist] =>
+    some <| showNats (C11M.airPass1 (mkPat n sp sj) (parseNats cpts) (parseInts split) (nat dist))
+  | ["c11_air2", n, ap, aj, ax, sp, sj, cpts, split, dist] =>
+    some <| match C11M.airPass2 (mk n ap aj ax) (mkPat n sp sj) (parseNats cpts) (parseInts split) (nat dist) with
+      | some rows => showRows rows
+      | none => "singular"
+  -- proof-side definitions (Proofs/C11Kernel.lean, Direct, Classical, ClassicalMod, OnePoint)
+  | ["c11_p_direct", n, ap, aj, ax, sp, sj, sx, split] =>
+    some <| showRows (C11.directP (K := Rat) (isCf (parseInts split)) (nat n) (rowsOf (mk n ap aj ax)) (rowsOf (mk n sp sj sx)))
+  | ["c11_p_classical", eps, md, n, ap, aj, ax, sp, sj, sx, split] =>
+    let A := rowsOf (mk n ap aj ax)
+    let S := rowsOf (mk n sp sj sx)
+    let isC := isCf (parseInts split)
+    some <| showRows (if md == "1" then C11.classicalModP (K := Rat) (parseRat eps) isC (nat n) A S
+                      else C11.classicalP (K := Rat) (parseRat eps) isC (nat n) A S)
+  | ["c11_p_onept", n, cp, cj, cx, split] =>
+    some <| showRows (C11.onePointP (K := Rat) (isCf (parseInts split)) (nat n) (rowsOf (mk n cp cj cx)))
+  | ["c11_p_inj", n, split] =>
+    some <| showRows (C11.injectionP (K := Rat) (isCf (parseInts split)) (nat n))
   | _ => none
 
 end PyamgV.Drv.C11
